@@ -1,7 +1,7 @@
 """C11 correspondence: angle / parallel / orthogonal (function and method forms) vs exact cos² and exact booleans."""
 import random, math
 from fractions import Fraction as F
-from .. import core, gen, admit, exact as E
+from .. import core, gen, admit, exact as E, interlib
 from ..gen import Gen, tok
 from ..exact import cross, dot, is0, mul, V
 
@@ -47,7 +47,7 @@ def work(args):
         u, v, cls = dir_pair(G, (idx * 3 + i) // 5)
         A = ('V', u) if ka == 'V' else (ka, G.pt(), u)
         B = ('V', v) if kb == 'V' else (kb, G.pt(), v)
-        a, b = impl.build(A), impl.build(B)
+        a, b = interlib.build_pair(impl, A, B)      # primed in-place move / shared-Point decoys for a third of the cases
         obs = {}
         for name, f in (('angle', impl.angle), ('parallel', impl.parallel), ('orthogonal', impl.orthogonal)):
             obs[name] = core.guarded(impl.call, f, a, b)
@@ -123,7 +123,7 @@ def replay(ctx, case):
     def conv(j):
         return ('V', tuple(F(x) for x in j[1])) if j[0] == 'V' else gen.from_jsonable(j)
     A, B = conv(c['a']), conv(c['b'])
-    a, b = impl.build(A), impl.build(B)
+    a, b = interlib.build_pair(impl, A, B)
     ml = core.model_lines(['angle %s %s' % (mtok(A), mtok(B))])[0]
     print('a =', mtok(A), ' b =', mtok(B), ' model:', ml)
     t = ml.split()
